@@ -961,4 +961,13 @@ example : ∀ d, (Out.separate (#[1, 2] : Bytes)) = .separate d → d.size = (#[
 example : (#[#[9, 9], #[9, 9]] : Array Bytes).size = (#[#[1, 2], #[3, 4]] : Array Bytes).size := rfl
 example : (∀ c ∈ [0, 1, 0], c < 2) ∧ 1 ∈ [0, 1, 0] := by decide
 
+/-- how small the per-pass acceptance of the `while (!is_eulerian)` loop gets on sorted runs: for `A⁴B` exactly 1 of the 4 in-range
+    last-edge rolls is accepted, for `A³B³C` exactly 1 of the 9 roll vectors — in general 1 of (product of the run lengths), so
+    the expected number of passes of `esl_rsq_{C,X}ShuffleDP` on `A^1250 C^1250 G^1250 T^1250` is about `2·10⁹`
+    (termination with probability 1 holds, `dpRetry_every_pass_can_accept`; the running time is another matter) -/
+example : ((List.range 4).filter (fun pos =>
+    dpAccepted 2 1 (dpSelectLastRolls 1 (List.range 2) (dpBuild 2 [0,0,0,0,1]) [pos]))) = [3] := by decide
+example : ((List.range 3).flatMap (fun p0 => (List.range 3).map (fun p1 => (p0, p1)))).filter (fun pr =>
+    dpAccepted 3 2 (dpSelectLastRolls 2 (List.range 3) (dpBuild 3 [0,0,0,1,1,1,2]) [pr.1, pr.2])) = [(2, 2)] := by decide
+
 end EaselModel.Props.C18
